@@ -85,6 +85,17 @@ def correspond(ctx):
 
         sevmcheck.run(ctx, ID, {}, n_scenarios=ctx.scale(16, 300), n_random_inputs=ctx.scale(6, 12),
                       cfgs=[{}, {"symbolic_jump": True}], gen=proggen.gen_immutable, corpus=False)
+        # one word instruction on operands of mixed representation (Bool-typed comparison results, run-time-concrete words with
+        # dirty bits, calldata words), observed as data and through a branch: every instruction x representation tuple, twice
+        # (different constants), then random ones
+        # ... preceded by one program per instruction over a grid of run-time-concrete operand tuples (the concrete fast paths)
+        grid_ops = iter(proggen.BIN + proggen.UN + proggen.TER)
+        sevmcheck.run(ctx, ID, {}, n_scenarios=len(proggen.BIN + proggen.UN + proggen.TER), n_random_inputs=1, cfgs=[{}],
+                      gen=lambda rng: proggen.gen_concrete_grid(rng, next(grid_ops)), corpus=False)
+        plan = proggen.wordmix_plan() * 2
+        it = iter(plan)
+        sevmcheck.run(ctx, ID, {}, n_scenarios=len(plan) + ctx.scale(20, 1500), n_random_inputs=ctx.scale(4, 10), cfgs=[{}],
+                      gen=lambda rng: proggen.gen_wordmix(rng, next(it, None)), corpus=False)
     finally:
         S.Path.check = orig
     stale = coremodel.compare_core(ctx, ctx.scale(60, 1200))
